@@ -270,6 +270,28 @@ def run_c20(ctx):
                 except Exception as e:
                     ctx.violations.append(dict(property="C20", what="set_all_attributes_from_json raised %r" % e, case=case))
                     continue
+            # the setters against the model (SubProject.lean): same inputs, same outputs
+            try:
+                sub2 = BaseSubProjectTask(name="SUB2", ID="sub2", file_path=path)
+                with warnings.catch_warnings(record=True) as wl2:
+                    warnings.simplefilter("always")
+                    sub2.set_all_attributes_from_json(remove_absence_time_list=remove)
+                sub2.set_work_amount_progress_of_unit_step_time(datetime.timedelta(hours=pu_h))
+                req = ["FN", "subcfg", str({0: 0, 1: 1, -1: 2}[int(subp.status)]), str(subp.time), str(len(subp.absence_time_list))] + \
+                      [str(a) for a in subp.absence_time_list] + [str(len(subp.cost_list)), str(su_h * 3600), "1" if remove else "0", str(pu_h * 3600)]
+                drv.ask(["M"] + codec.enc_model(dict(nT=0, nW=0, nF=0, nTeam=0, nWp=0, nC=0, tasks=[], workers=[], facs=[], teams=[], wps=[], comps=[])))
+                ans = drv.ask(req)
+                warned = any("not simulated" in str(w_.message) for w_ in wl2)
+                exp = [codec.rat_str(sub2.default_work_amount), codec.rat_str(sub2.unit_timedelta.total_seconds()),
+                       codec.rat_str(Fr(sub2.work_amount_progress_of_unit_step_time)),
+                       "1" if getattr(sub2, "read_json_file", False) else "0", "1" if sub2.remove_absence_time_list else "0", "1" if warned else "0"]
+                cell = ctx.matrix.setdefault("subproject-setters", dict(executions=0, disagreements=0))
+                cell["executions"] += 1
+                if ans != " ".join(exp):
+                    cell["disagreements"] += 1
+                    ctx.footprint_disagreements.append(dict(case=case, phase="subproject-setters", real=exp, model=ans))
+            except Exception as e:
+                ctx.infra.append("c20 setter correspondence crashed: %r" % e)
             if not success:
                 after = dict(vars(sub))
                 if after != before:
